@@ -47,12 +47,14 @@ const (
 	cuSGPRs    = 3200
 	simdVGPRs  = 16384
 	laneStride = 1024
-	numSIMD    = 4
-	sGranule   = 16
-	vGranule   = 4
-	archSGPRs  = 102 // s0..s101 are the SGPRs an operand can name
-	archVGPRs  = 256
-	numLanes   = 64
+	// largest SIMD register file generated (512 registers per lane)
+	maxSIMDVGPRs = 32768
+	numSIMD      = 4
+	sGranule     = 16
+	vGranule     = 4
+	archSGPRs    = 102 // s0..s101 are the SGPRs an operand can name
+	archVGPRs    = 256
+	numLanes     = 64
 )
 
 // WfCfg places one wavefront in the compute unit.
@@ -71,6 +73,17 @@ func (w WfCfg) nS() int {
 	}
 	return w.SGPRs
 }
+
+// simdRegs is the number of vector registers of SIMD s, stride the byte size
+// of one lane's row in its register file
+func (c Case) simdRegs(s int) int {
+	if len(c.SIMDVGPRs) == numSIMD {
+		return c.SIMDVGPRs[s]
+	}
+	return simdVGPRs
+}
+
+func (c Case) stride(s int) int { return c.simdRegs(s) / numLanes * 4 }
 
 // Op is one step of the history.
 //
@@ -92,10 +105,14 @@ type Op struct {
 
 // Case is one generated case.
 type Case struct {
-	Wfs      []WfCfg `json:"wfs"`
-	Fill     bool    `json:"fill"` // start from a non-zero pattern in every register file instead of zeros
-	FillSeed uint32  `json:"fill_seed"`
-	Ops      []Op    `json:"ops"`
+	Wfs []WfCfg `json:"wfs"`
+	// SIMDVGPRs, if given, builds the compute unit with these per-SIMD
+	// vector register counts (cu.Builder.WithVGPRCount) instead of the
+	// default of 16384 everywhere; a lane's row is SIMDVGPRs[s]/64 registers
+	SIMDVGPRs []int  `json:"simd_vgprs,omitempty"`
+	Fill      bool   `json:"fill"` // start from a non-zero pattern in every register file instead of zeros
+	FillSeed  uint32 `json:"fill_seed"`
+	Ops       []Op   `json:"ops"`
 }
 
 // ---------------------------------------------------------------------------
@@ -443,12 +460,20 @@ func validate(c Case) error {
 		return fmt.Errorf("%d wavefronts", len(c.Wfs))
 	}
 	var sUsed [cuSGPRs / sGranule]bool
-	var vUsed [numSIMD][archVGPRs / vGranule]bool
+	if len(c.SIMDVGPRs) != 0 && len(c.SIMDVGPRs) != numSIMD {
+		return fmt.Errorf("%d SIMD sizes", len(c.SIMDVGPRs))
+	}
+	for s := 0; s < numSIMD; s++ {
+		if n := c.simdRegs(s); n < numLanes*vGranule || n%(numLanes*vGranule) != 0 || n > maxSIMDVGPRs {
+			return fmt.Errorf("SIMD %d with %d vector registers", s, n)
+		}
+	}
+	var vUsed [numSIMD][maxSIMDVGPRs / numLanes / vGranule]bool
 	for i, w := range c.Wfs {
 		if w.SIMD < 0 || w.SIMD >= numSIMD || w.SGPRs < sGranule || w.SGPRs%sGranule != 0 || w.SGPRs > 112 ||
 			w.VGPRs < vGranule || w.VGPRs%vGranule != 0 || w.VGPRs > archVGPRs ||
 			w.SOff < 0 || w.SOff%(4*sGranule) != 0 || w.SOff+4*w.SGPRs > 4*cuSGPRs ||
-			w.VOff < 0 || w.VOff%(4*vGranule) != 0 || w.VOff+4*w.VGPRs > laneStride {
+			w.VOff < 0 || w.VOff%(4*vGranule) != 0 || w.VOff+4*w.VGPRs > c.stride(w.SIMD) {
 			return fmt.Errorf("wavefront %d: bad placement %+v", i, w)
 		}
 		for g := w.SOff / 4 / sGranule; g < (w.SOff/4+w.SGPRs)/sGranule; g++ {
@@ -560,7 +585,7 @@ func RunCase(c Case) (res stats.Result) {
 		simdUsed[w.SIMD] = true
 	}
 	for s := range vImg {
-		vImg[s] = make([]byte, 4*simdVGPRs)
+		vImg[s] = make([]byte, 4*c.simdRegs(s))
 	}
 	if c.Fill {
 		for i := 0; i < cuSGPRs; i++ {
@@ -570,7 +595,7 @@ func RunCase(c Case) (res stats.Result) {
 			if !simdUsed[s] {
 				continue // an unused SIMD keeps zeros; it is still dumped and compared
 			}
-			for i := 0; i < simdVGPRs; i++ {
+			for i := 0; i < c.simdRegs(s); i++ {
 				binary.LittleEndian.PutUint32(vImg[s][4*i:], mix(c.FillSeed+uint32(s)+1, uint32(i)))
 			}
 		}
@@ -592,7 +617,7 @@ func RunCase(c Case) (res stats.Result) {
 			for l := 0; l < numLanes; l++ {
 				for v := 0; v < archVGPRs; v++ {
 					if v < w.VGPRs {
-						m.V[l][v] = binary.LittleEndian.Uint32(vImg[w.SIMD][w.VOff+l*laneStride+4*v:])
+						m.V[l][v] = binary.LittleEndian.Uint32(vImg[w.SIMD][w.VOff+l*c.stride(w.SIMD)+4*v:])
 					} else {
 						m.V[l][v] = mix(c.FillSeed+99+uint32(wi), uint32(l*archVGPRs+v))
 					}
@@ -608,14 +633,19 @@ func RunCase(c Case) (res stats.Result) {
 
 	// timing store: a compute unit from the real builder (its register files,
 	// file sizes and lane stride are part of what is under test)
-	cuv := cu.MakeBuilder().WithEngine(sim.NewSerialEngine()).WithFreq(1 * sim.GHz).Build("CU")
+	cub := cu.MakeBuilder().WithEngine(sim.NewSerialEngine()).WithFreq(1 * sim.GHz)
+	if len(c.SIMDVGPRs) == numSIMD {
+		cub = cub.WithVGPRCount(append([]int(nil), c.SIMDVGPRs...))
+	}
+	cuv := cub.Build("CU")
 	if cuv.SRegCount() != cuSGPRs || len(cuv.VRegFile) != numSIMD || len(cuv.VRegCounts()) != numSIMD {
 		panic("harness: compute unit geometry differs from the constants of this package")
 	}
 	sFile := cuv.SRegFile
 	vFiles := cuv.VRegFile
 	for s := 0; s < numSIMD; s++ {
-		if cuv.VRegCounts()[s] != simdVGPRs {
+		// (VRegCounts reports the default geometry whatever the builder was given)
+		if len(c.SIMDVGPRs) == 0 && cuv.VRegCounts()[s] != c.simdRegs(s) {
 			panic("harness: compute unit geometry differs from the constants of this package")
 		}
 	}
@@ -623,7 +653,7 @@ func RunCase(c Case) (res stats.Result) {
 		sFile.Write(cu.RegisterAccess{Reg: insts.SReg(0), RegCount: cuSGPRs, Data: append([]byte(nil), sImg...)})
 		for s := 0; s < numSIMD; s++ {
 			if simdUsed[s] {
-				vFiles[s].Write(cu.RegisterAccess{Reg: insts.VReg(0), RegCount: simdVGPRs, Data: append([]byte(nil), vImg[s]...)})
+				vFiles[s].Write(cu.RegisterAccess{Reg: insts.VReg(0), RegCount: c.simdRegs(s), Data: append([]byte(nil), vImg[s]...)})
 			}
 		}
 	}
@@ -728,7 +758,7 @@ func RunCase(c Case) (res stats.Result) {
 		}
 		for l := 0; l < numLanes; l++ {
 			for v := 0; v < w.VGPRs; v++ {
-				binary.LittleEndian.PutUint32(vImg[w.SIMD][w.VOff+l*laneStride+4*v:], m.V[l][v])
+				binary.LittleEndian.PutUint32(vImg[w.SIMD][w.VOff+l*c.stride(w.SIMD)+4*v:], m.V[l][v])
 			}
 		}
 	}
@@ -742,9 +772,9 @@ func RunCase(c Case) (res stats.Result) {
 			}
 		}
 	}
-	gotV := make([]byte, 4*simdVGPRs)
 	for s := 0; s < numSIMD; s++ {
-		vFiles[s].Read(cu.RegisterAccess{Reg: insts.VReg(0), RegCount: simdVGPRs, Data: gotV})
+		gotV := make([]byte, 4*c.simdRegs(s))
+		vFiles[s].Read(cu.RegisterAccess{Reg: insts.VReg(0), RegCount: c.simdRegs(s), Data: gotV})
 		if !bytes.Equal(gotV, vImg[s]) {
 			for off := 0; off < len(gotV); off += 4 {
 				if !bytes.Equal(gotV[off:off+4], vImg[s][off:off+4]) {
@@ -767,7 +797,7 @@ func whoS(c Case, off int) string {
 }
 
 func whoV(c Case, simd, off int) string {
-	lane, in := off/laneStride, off%laneStride
+	lane, in := off/c.stride(simd), off%c.stride(simd)
 	for wi, w := range c.Wfs {
 		if w.SIMD == simd && in >= w.VOff && in < w.VOff+4*w.VGPRs {
 			return fmt.Sprintf("wf%d v%d lane %d", wi, (in-w.VOff)/4, lane)
@@ -881,11 +911,21 @@ func classify(c Case) ([]string, bool) {
 	} else {
 		set["start-state:zero"] = true
 	}
+	if len(c.SIMDVGPRs) == numSIMD {
+		for s := 1; s < numSIMD; s++ {
+			if c.SIMDVGPRs[s] != c.SIMDVGPRs[0] {
+				set["geometry:simds-of-unequal-size"] = true
+			}
+		}
+	}
 	for i, a := range c.Wfs {
+		if a.VOff+4*a.VGPRs > laneStride {
+			set["placement:vgpr-window-beyond-register-255-of-the-row"] = true
+		}
 		if a.SOff+4*a.SGPRs == 4*cuSGPRs {
 			set["placement:sgpr-window-at-file-end"] = true
 		}
-		if a.VOff+4*a.VGPRs == laneStride {
+		if a.VOff+4*a.VGPRs == c.stride(a.SIMD) {
 			set["placement:vgpr-window-at-row-end"] = true
 		}
 		for j, b := range c.Wfs {
@@ -1000,7 +1040,7 @@ var interestingVals = []uint64{
 	1, 1 << 63, 0x80000000, 0x0123456789ABCDEF,
 }
 
-func genLayout(t *rapid.T) []WfCfg {
+func genLayout(t *rapid.T, c *Case) []WfCfg {
 	n := rapid.IntRange(2, 4).Draw(t, "wavefronts")
 	wfs := make([]WfCfg, n)
 	// SGPR windows: consecutive 16-register granules with drawn gaps
@@ -1039,6 +1079,13 @@ func genLayout(t *rapid.T) []WfCfg {
 	}
 	// VGPR windows per SIMD
 	var vcur [numSIMD]int // next free VGPR index of every SIMD
+	// one case in three: SIMDs of unequal sizes (lane rows of 128, 256, 512 registers)
+	if rapid.IntRange(0, 2).Draw(t, "unequalsimds") == 0 {
+		for s := 0; s < numSIMD; s++ {
+			c.SIMDVGPRs = append(c.SIMDVGPRs, rapid.SampledFrom([]int{8192, 16384, 16384, 32768}).Draw(t, "simdvgprs"))
+		}
+	}
+	row := func(s int) int { return c.simdRegs(s) / numLanes }
 	prev := rapid.IntRange(0, numSIMD-1).Draw(t, "simd")
 	for i := range wfs {
 		simd := prev
@@ -1047,16 +1094,16 @@ func genLayout(t *rapid.T) []WfCfg {
 		}
 		want := rapid.SampledFrom([]int{4, 8, 12, 16, 32, 64, 128, 256}).Draw(t, "vgprs")
 		gap := rapid.SampledFrom([]int{0, 0, 0, 4, 8}).Draw(t, "vgap")
-		for k := 0; k < numSIMD && vcur[simd]+gap+vGranule > archVGPRs; k++ {
+		for k := 0; k < numSIMD && vcur[simd]+gap+vGranule > row(simd); k++ {
 			simd = (simd + 1) % numSIMD
 			gap = 0
 		}
 		start := vcur[simd] + gap
-		if want > archVGPRs-start {
-			want = archVGPRs - start
+		if want > row(simd)-start {
+			want = row(simd) - start
 		}
 		if rapid.IntRange(0, 3).Draw(t, "toend") == 3 {
-			start = archVGPRs - want
+			start = row(simd) - want
 		}
 		wfs[i].SIMD, wfs[i].VGPRs, wfs[i].VOff = simd, want, start*4
 		vcur[simd] = start + want
@@ -1208,7 +1255,7 @@ func genOp(t *rapid.T, wfs []WfCfg, pools []pool) Op {
 
 func genCase(t *rapid.T) Case {
 	var c Case
-	c.Wfs = genLayout(t)
+	c.Wfs = genLayout(t, &c)
 	c.Fill = rapid.IntRange(0, 4).Draw(t, "fill") != 0
 	if c.Fill {
 		c.FillSeed = rapid.Uint32().Draw(t, "fillseed")
